@@ -166,3 +166,60 @@ func (c *Ctx) errorsNotDropped(prop string) {
 	}
 	c.ok("error-results:"+prop, 0, "%d call sites of the error-returning operations this property depends on; none drops its error (besides the frozen exceptions)", n)
 }
+
+// exactReads: io.Reader.Read may return fewer bytes than asked for without an error.  (1) The
+// decoding primitives (methods of reader, FormatDecoder, Protocol) never call Read directly -
+// fixed-size fields go through io.ReadFull / io.CopyN / ReadN, which loop; (2) anywhere in the
+// library the byte count returned by a direct Read call is used.  A short read that is taken for
+// a full one decodes a wrong integer and shifts everything after it; it only happens on sources
+// that deliver data in pieces (pipes, network bodies, the chunk pipe of untar -i).
+func (c *Ctx) exactReads() {
+	isRead := func(ci ssa.CallInstruction) bool {
+		com := ci.Common()
+		var name string
+		if com.IsInvoke() {
+			name = com.Method.Name()
+		} else if f := com.StaticCallee(); f != nil {
+			name = f.Name()
+		}
+		if name != "Read" {
+			return false
+		}
+		sig := com.Signature()
+		return sig.Params().Len() == 1 && sig.Params().At(0).Type().String() == "[]byte" && sig.Results().Len() == 2
+	}
+	direct, prim := 0, 0
+	for _, fn := range c.libFuncs() {
+		k := fnKey(fn)
+		primitive := strings.HasPrefix(k, "reader.") || strings.HasPrefix(k, "FormatDecoder.") || strings.HasPrefix(k, "Protocol.")
+		if primitive {
+			prim++
+		}
+		instrs(fn, func(_ *ssa.BasicBlock, _ int, ins ssa.Instruction) {
+			ci, ok := ins.(ssa.CallInstruction)
+			if !ok || !isRead(ci) {
+				return
+			}
+			direct++
+			key := k + ":Read"
+			if primitive {
+				c.bad(key, ins.Pos(), "a decoding primitive calls Read directly: a short read (pipe, network body, chunk boundary of untar -i) is taken for a full field; use io.ReadFull / io.CopyN")
+				return
+			}
+			used := false
+			if v, ok := ins.(ssa.Value); ok && v.Referrers() != nil {
+				for _, r := range *v.Referrers() {
+					if ex, ok := r.(*ssa.Extract); ok && ex.Index == 0 && ex.Referrers() != nil {
+						for _, rr := range *ex.Referrers() {
+							if _, dbg := rr.(*ssa.DebugRef); !dbg {
+								used = true
+							}
+						}
+					}
+				}
+			}
+			c.verdict(used, key, ins.Pos(), "the byte count of the direct Read is used", "the byte count returned by Read is ignored: a short read is taken for a full buffer")
+		})
+	}
+	c.ok("exact-reads", 0, "%d decoding primitive(s) without a direct Read; %d direct Read call(s) elsewhere in the library, byte count used", prim, direct)
+}
